@@ -465,6 +465,35 @@ fn workers(op: &'static str, cause: &'static str) -> Body {
   })
 }
 
+/// C15: the same operators over a source that terminates synchronously inside subscribe
+fn workers_cold(op: &'static str, end: &'static str) -> Body {
+  Box::new(move || {
+    let nt = schedulers::new_thread_scheduler;
+    let d = Duration::from_millis(10);
+    let src: Obs = match end {
+      "complete" => observables::from_iter(vec![1i64, 2, 3].into_iter()),
+      "error" => observables::error(RxError::from_error(900i64)),
+      "just" => observables::just(1i64),
+      _ => observables::empty(),
+    };
+    let o: Obs = match op {
+      "observe_on" => src.observe_on(nt()),
+      "subscribe_on" => src.subscribe_on(nt()),
+      "debounce" => src.debounce(d, nt()),
+      "timeout" => src.timeout(Duration::from_millis(50), nt()),
+      "observe_on_x2" => src.observe_on(nt()).observe_on(nt()),
+      "subscribe_on_observe_on" => src.subscribe_on(nt()).observe_on(nt()),
+      "debounce_take" => src.debounce(d, nt()).take(1),
+      "observe_on_first" => src.observe_on(nt()).first(),
+      _ => panic!("op"),
+    };
+    meta(serde_json::json!({"kind": "workers", "op": op, "cause": format!("sync-{}", end)}));
+    let _sub = subscribe_rec(&o, "A");
+    vf::sleep(Duration::from_millis(400));
+    mark("quiescence-check");
+  })
+}
+
 pub fn catalogue() -> Vec<(String, Vec<&'static str>)> {
   let mut v: Vec<(String, Vec<&'static str>)> = vec![];
   for k in ["subject", "behavior", "replay", "async"] {
@@ -511,6 +540,11 @@ pub fn catalogue() -> Vec<(String, Vec<&'static str>)> {
       v.push((format!("workers:{}:{}", op, cause), vec!["C15", "C07"]));
     }
   }
+  for op in ["observe_on", "subscribe_on", "debounce", "timeout", "observe_on_x2", "subscribe_on_observe_on", "debounce_take", "observe_on_first"] {
+    for end in ["complete", "error", "just", "empty"] {
+      v.push((format!("workers_cold:{}:{}", op, end), vec!["C15", "C07"]));
+    }
+  }
   v
 }
 
@@ -530,6 +564,7 @@ pub fn build(name: &str) -> Option<Body> {
     "scheduler_abort_race" => Some(scheduler_abort_race()),
     "to_vec" if p.len() == 2 => Some(to_vec(p[1])),
     "workers" if p.len() == 3 => Some(workers(p[1], p[2])),
+    "workers_cold" if p.len() == 3 => Some(workers_cold(p[1], p[2])),
     _ => None,
   }
 }
